@@ -294,8 +294,9 @@ class Worker:
                 self.read_receipt_mutex.acquire()
                 tasks = cast(list[RuntimeTask], payload)
                 self.most_recent_read_submit = tasks[0].unique_id
-                self._add_task(tasks.pop())  # Submit one task
+                task = tasks.pop()
                 self._delayed_tasks.extend(tasks)  # Delay rest
+                self._add_task(task)  # Submit one task
                 self.read_receipt_mutex.release()
 
             elif msg == RuntimeMessage.RESULT:
